@@ -16,7 +16,7 @@ ID = "C03"
 BUDGET = {"quick": 320, "thorough": 3200}
 CASE_TIMEOUT = {"quick": 240, "thorough": 400}
 RULE = (
-    "models from vlib.modelgen biased to And/Or with 2-4 operands, relational-as-number and conditionals, with "
+    "models from vlib.modelgen biased to And/Or with 2-4 operands (and wide ones with 5-9 operands decided by a single operand at a drawn position), relational-as-number and conditionals, with "
     "more or fewer monitored quantities than states x resampled reference-defined points x dt; the module from "
     "get_code(backend=jax) is exec'd and rhs, monitor_values, explicit_euler, generalized_rush_larsen, "
     "hybrid_rush_larsen, init_state_values(**kw), init_parameter_values(**kw) are run jitted and under "
@@ -149,7 +149,7 @@ def check_case(case):
 
 
 CLAIM = {
-    "text": "Bounded random exploration: each generated model's JAX module is imported and every function is executed jitted and un-jitted; output lengths are checked against the documented lengths and every slot against an independent 256-bit reference of the model text. And/Or with 2-4 operands and models with more monitored quantities than states are generated on purpose. No absence claim.",
+    "text": "Bounded random exploration: each generated model's JAX module is imported and every function is executed jitted and un-jitted; output lengths are checked against the documented lengths and every slot against an independent 256-bit reference of the model text. And/Or with 2-4 operands (and wide ones with 5-9 operands decided by a single operand at a drawn position) and models with more monitored quantities than states are generated on purpose. No absence claim.",
     "note": "Trusted: vlib/refsem.py, vlib/schemeref.py, JAX/XLA CPU numerics. missing_values for JAX is covered in C13's check.",
     "technique": "property-based testing (Hypothesis) with a reference-model oracle, jit / no-jit differential",
 }
